@@ -25,6 +25,8 @@ CONSTANTS
   Weak_RotateDropsBuf = FALSE
   Weak_DecoderAcceptsBadCRC = FALSE
   Weak_PruneNewest = TRUE
+  Weak_IndexWidth3Only = FALSE
+  WidthLimit = 1000
 INIT Init
 NEXT Next
 INVARIANTS TypeOK AckedDurable AckedReadable NoInvented PruneWholeOldest SearchExact SecondRestartSame ReplayRestores
